@@ -20,7 +20,7 @@ from typing import Any, Dict, List, Optional, Tuple
 from lib import vlib
 from lib.vlib import cq_bool, cq_list, cq_nat
 from harness import daggen
-from harness.universe import Universe, export_plan, table_rows
+from harness.universe import Universe, export_plan, table_rows, kf_tfs_partial_requirement, kf_framework_roundtrip, kf_tfs_missing
 from harness.orch import (GateListener, run_observed, run_gated, cq_plan, export_adj, install)
 
 LEVEL = "proof"
@@ -78,20 +78,17 @@ def cq_status(s: str) -> str:
 
 
 def gen_specs(rng: random.Random, n: int) -> Tuple[List[Dict[str, Any]], Dict[str, int]]:
-    """Specs whose SYNC run succeeds (the property quantifies over accepted, runnable requests)."""
-    specs, stats = [], {"generated": 0, "prepare_rejected": 0, "sync_run_failed": 0}
+    """Merge-free single-root DAGs (always plannable and runnable) + 20% two-root requests with an inner link."""
+    specs, stats = [], {"generated": 0, "prepare_rejected": 0}
     while len(specs) < n and stats["generated"] < 20 * n:
         stats["generated"] += 1
         spec = daggen.gen_two_roots_inner(rng) if rng.random() < 0.2 else daggen.gen_single_root(rng)
         uni = Universe(spec, GateListener())
         try:
-            s = uni.prepare()
-        except Exception:  # noqa: BLE001
+            uni.prepare()
+        except Exception as e:  # noqa: BLE001
             stats["prepare_rejected"] += 1
-            continue
-        o = run_observed(s)
-        if o["status"] != "ok":
-            stats["sync_run_failed"] += 1
+            stats.setdefault("reject_samples", []).append(str(e)[:120])  # type: ignore[union-attr]
             continue
         specs.append(spec)
     return specs, stats
@@ -108,6 +105,8 @@ def one_spec(spec: Dict[str, Any], rng: random.Random, n_sched: int) -> Dict[str
                            "sync": {"begin": o["begin_order"], "scans": o["scans"], "status": o["status"], "foot": o["foot"]},
                            "gated": []}
     rec["sync"]["judge"] = judge_trace(spec, gl.events, plan, o["begin_order"], o["status"])
+    rec["sync"]["raised"] = o["raised_steps"]
+    rec["sync"]["exc"] = str(o.get("exc"))[-300:] if o["status"] == "raised" else None
     base = canon_result(o["result"]) if o["status"] == "ok" else None
     for k in range(n_sched):
         gl2 = GateListener()
@@ -154,7 +153,7 @@ def run(rep: vlib.Reporter, tier: str, seed: int) -> None:
     bad_wf, _ = vlib.run_cases("C01", "wf", REQ, "chk_wf", wf_terms, extra_defs=EXTRA, case_type="plan * list (nat * list nat)", shard=60)
     # T2 sync
     sync_terms = [f"({cq_plan(r['plan'])}, ({cq_list(cq_nat(x) for x in r['sync']['begin'])}, {cq_nat(r['sync']['scans'])}, "
-                  f"{cq_status(r['sync']['status'])}, []))" for r in recs]
+                  f"{cq_status(r['sync']['status'])}, {cq_list(cq_nat(x) for x in r['sync']['raised'])}))" for r in recs]
     bad_sync, _ = vlib.run_cases("C01", "sync", REQ, "chk_sync", sync_terms, extra_defs=EXTRA,
                                  case_type="plan * (list nat * nat * ostatus * list nat)", shard=60)
     # conflicts (known-finding domain classifier)
@@ -196,19 +195,47 @@ def run(rep: vlib.Reporter, tier: str, seed: int) -> None:
                     "non-trivial = the plan has an intra-group level split or a gated run had >= 2 concurrently enabled steps")
     rep.add("traces_validated_against_impl", len(recs) + len(gated_terms))
 
+    def classify(i: int, plan: Dict[str, Any], what: str, replay: Dict[str, Any], gated: bool, vkey: str) -> bool:
+        """Route a failure to a known-finding domain (narrow, decidable on the plan) or report it as a violation."""
+        if kf_tfs_partial_requirement(plan):
+            rep.finding("C01-tfs-partial-requirement", what, replay)
+            return False
+        if kf_tfs_missing(plan):
+            rep.finding("C01-tfs-missing", what, replay)
+            return False
+        if kf_framework_roundtrip(plan):
+            rep.finding("C01-framework-roundtrip-wrong-object", what, replay)
+            return False
+        if gated and i in has_conflict:
+            rep.finding("C01-unordered-conflicting-steps", what, replay)
+            return False
+        rep.finding(vkey, what, replay)
+        return True
+
     for i in bad_wf[:5]:
         rep.finding(f"wf:{json.dumps(recs[i]['spec'], sort_keys=True)}",
                     "exported plan violates well-formedness (duplicate/empty produced sets, dangling or cyclic requirement) or "
                     "a step's required set misses an ancestor of its features", {"kind": "plan", **recs[i]})
         found = True
-    for i in bad_sync[:5]:
-        rep.finding(f"sync:{json.dumps(recs[i]['spec'], sort_keys=True)}",
-                    f"SYNC run: observed begin order {recs[i]['sync']['begin']} / iterations {recs[i]['sync']['scans']} / status "
-                    f"{recs[i]['sync']['status']} differ from the orchestrator model", {"kind": "sync", **recs[i]})
-        found = True
     for i, r in enumerate(recs):
+        key = json.dumps(r["spec"], sort_keys=True)
         if r["sync"]["judge"]:
-            rep.finding(f"judge-sync:{json.dumps(r['spec'], sort_keys=True)}", "SYNC: " + r["sync"]["judge"], {"kind": "sync", **r})
+            found |= classify(i, r["plan"], "SYNC: " + r["sync"]["judge"], {"kind": "sync", **r}, False, f"judge-sync:{key}")
+        elif r["sync"]["status"] != "ok":
+            found |= classify(i, r["plan"], f"SYNC run of an accepted merge-free request {r['sync']['status']}: {r['sync'].get('exc')}",
+                              {"kind": "sync", **r}, False, f"sync-run:{key}")
+        elif i in bad_sync:
+            rep.finding(f"sync:{key}", f"SYNC run: observed begin order {r['sync']['begin']} / iterations {r['sync']['scans']} / status "
+                        f"{r['sync']['status']} differ from the orchestrator model", {"kind": "sync", **r})
+            found = True
+    for i in bad_sync:
+        r = recs[i]
+        if r["sync"]["status"] == "raised" and not r["sync"]["raised"] and not r["sync"]["judge"]:
+            pass  # exception raised by the main thread outside a step (result collection): classified above as sync-run
+        elif r["sync"]["status"] == "raised" and (r["sync"]["judge"] is None):
+            rep.finding(f"sync:{json.dumps(r['spec'], sort_keys=True)}",
+                        f"failing SYNC run: observed begin order {r['sync']['begin']} / raised steps {r['sync']['raised']} differ from the model",
+                        {"kind": "sync", **r})
             found = True
     for k in bad_gated[:5]:
         i, j = gated_idx[k]
@@ -232,12 +259,15 @@ def run(rep: vlib.Reporter, tier: str, seed: int) -> None:
             dist["gated_failures"] += 1
             schedule = [rd.get("released") for rd in g["rounds"]]
             replay = {"kind": "gated", "spec": r["spec"], "schedule": schedule, "failure": failure}
-            if i in has_conflict and not g["problem"]:
-                rep.finding("C01-unordered-conflicting-steps", failure, replay)
-            else:
-                rep.finding(f"threading:{json.dumps(r['spec'], sort_keys=True)}:{schedule}",
-                            f"THREADING schedule {schedule}: {failure}", replay)
+            if g["problem"]:
+                rep.finding(f"threading-sched:{json.dumps(r['spec'], sort_keys=True)}:{schedule}", failure, replay)
                 found = True
+            else:
+                found |= classify(i, g["plan"], f"THREADING schedule {schedule}: {failure}", replay, True,
+                                  f"threading:{json.dumps(r['spec'], sort_keys=True)}:{schedule}")
+    dist["plans_in_kf_tfs_partial"] = sum(1 for r in recs if kf_tfs_partial_requirement(r["plan"]))
+    dist["plans_in_kf_tfs_missing"] = sum(1 for r in recs if kf_tfs_missing(r["plan"]))
+    dist["plans_in_kf_roundtrip"] = sum(1 for r in recs if kf_framework_roundtrip(r["plan"]))
     rep.sample({"spec": recs[0]["spec"], "plan_steps": [(s["kind"], s["uuids"], s["req"]) for s in recs[0]["plan"]["steps"]],
                 "sync_begin_order": recs[0]["sync"]["begin"],
                 "gated_rounds": recs[0]["gated"][0]["rounds"] if recs[0]["gated"] else None})
